@@ -68,6 +68,16 @@ def _build_dt(c):
 
 
 def run_impl(c):
+    """the caller's ambient decimal context must not influence any result"""
+    import decimal
+    if c.get("ctx"):
+        with decimal.localcontext() as ctx:
+            ctx.prec = c["ctx"]
+            return _run_impl(c)
+    return _run_impl(c)
+
+
+def _run_impl(c):
     import nitypes.bintime as bt
     k = c["k"]
     if k == "td_fields":
@@ -210,7 +220,7 @@ def gen_cases(rng, tier):
         dtv = rng.sample(dtv, min(len(dtv), 2500))
     for t in dtv:
         cases.append({"k": "dt_fields", "t": t})
-        cases.append({"k": rng.choice(["dt_repr", "dt_str"]), "t": t})
+        cases.append({"k": rng.choice(["dt_repr", "dt_str"]), "t": t, "ctx": rng.choice([None, None, None, 12, 6])})
         # the same observers on objects reached through other construction paths
         m = rng.randrange(6)
         obs = rng.choice(["dt_fields", "dt_str", "dt_repr"])
@@ -237,7 +247,7 @@ def gen_cases(rng, tier):
         f = [y, mo, rng.randrange(1, dmax + 1), rng.randrange(24), rng.randrange(60), rng.randrange(60),
              rng.choice([0, 999999, rng.randrange(10**6)]), rng.choice([0, 999999999, rng.randrange(10**9)]),
              rng.choice([0, 999999999, 54210, rng.randrange(10**9)])]
-        cases.append({"k": "dt_from_fields", "f": f})
+        cases.append({"k": "dt_from_fields", "f": f, "ctx": rng.choice([None, None, 12, 6, 30])})
     # calendar model against Python
     maxord = dt.date.max.toordinal()
     if big:
